@@ -38,6 +38,7 @@ Record config := {
   c_dict_strict : bool;                     (* diff_dicts compares values with strict_equals, not != *)
   c_mime_strict : bool;                     (* add_mime_diff likewise *)
   c_conj_cfg : bool;                        (* diff_single_outputs diffs the output-without-data with path and config *)
+  c_mime_guard : bool;                      (* add_mime_diff recurses only into equal-kind containers *)
 }.
 
 Definition value_eqb (strict : bool) (x y : json) : bool :=
@@ -453,7 +454,8 @@ Section Differ.
                              match dd with [] => Ok [] | _ => Ok [DPatch (KS k) dd] end
                            else Ok [DReplace (KS k) vb]
                        | _, _ =>
-                           if existsb (fun tm => starts_with tm mimetype) (c_split_mimes cfg) then
+                           if existsb (fun tm => starts_with tm mimetype) (c_split_mimes cfg)
+                              && (negb (c_mime_guard cfg) || (kind_eqb (kind_of va) (kind_of vb) && is_container va)) then
                              do dd <- diff_default n' va vb;
                              match dd with [] => Ok [] | _ => Ok [DPatch (KS k) dd] end
                            else if value_eqb (c_mime_strict cfg) va vb then Ok [] else Ok [DReplace (KS k) vb]
